@@ -802,6 +802,45 @@ def build(run):
                           sample=f"Determinant(Determinant(M)) returns the existing node and leaves its operand tuple unchanged; {n_calls} calls")
     run.add("constructor-frame/operands-unchanged", ctor_frame, kind="bounded")
 
+    # ---- reconstruction (the hook every rewriting pass uses to rebuild a node around new operands): o._ufl_expr_reconstruct_(*ops') denotes the
+    # SAME operator applied to ops', for every operator class of the template catalogue and all operand values
+    from ufv.nodes import templates as _templates
+    from ufv.opq import mesh as _mesh
+    for t_ in _templates():
+        def recon(t_=t_):
+            dom = _mesh("triangle") if t_.needs_dom else None
+            mk = lambda tag_: [Opq(nm_ + tag_, sh_, fi_, fid_, **({"dom": dom} if dom is not None else {})) for (nm_, sh_, fi_, fid_) in t_.specs]   # noqa: E731
+            ops1, ops2 = mk(""), mk("2")
+            try:
+                o = t_.build(ops1)
+                want = t_.build(ops2)
+            except REFUSE as ex:
+                return proved("refused", sample=f"{t_.name}: the template operands are refused: {ex}"[:160])
+            if not isinstance(o, C.Operator) or type(o) is not t_.cls:
+                return proved("n/a", sample=f"{t_.name}: construction simplifies to {type(o).__name__}; nothing to reconstruct")
+            # the operands the node actually holds (multi-indices, literals, ...), with the opaque ones exchanged
+            sub = {id(a_): b_ for a_, b_ in zip(ops1, ops2)}
+            from ufl.algorithms.replace import replace as _replace
+            deep = {a_: b_ for a_, b_ in zip(ops1, ops2)}
+            new_ops = [sub[id(x_)] if id(x_) in sub else (_replace(x_, deep) if isinstance(x_, C.Operator) else x_) for x_ in o.ufl_operands]
+            if all(a_ is b_ or (isinstance(a_, C.Expr) and a_ == b_) for a_, b_ in zip(new_ops, o.ufl_operands)):
+                return proved("n/a", sample=f"{t_.name}: the node does not hold the template operands")
+            try:
+                r = o._ufl_expr_reconstruct_(*new_ops)
+            except REFUSE as ex:
+                if not deliberate(ex):
+                    return violated(f"crash instead of a result or a refusal: {crash_text(ex)}", reproduced=True, backend="exec")
+                return violated(f"{t_.name}: reconstruction around operands of the same shape is refused: {ex}", replay={"template": t_.name}, reproduced=True)
+            if r.ufl_shape != want.ufl_shape or r.ufl_free_indices != want.ufl_free_indices or r.ufl_index_dimensions != want.ufl_index_dimensions:
+                return violated(f"{t_.name}: the reconstructed node has shape {r.ufl_shape} / free indices {r.ufl_free_indices}, the operator applied to the new operands has "
+                                f"{want.ufl_shape} / {want.ufl_free_indices}", replay={"template": t_.name, "got": str(r)[:300]}, reproduced=True, backend="structural")
+            if type(r) is type(want) and r == want:
+                return proved("structural", sample=f"{t_.name}: the reconstructed node equals the operator applied to the new operands")
+            mkw = real_world(gdim=2) if t_.needs_dom else real_world()
+            return check_same(mkw, r, lambda w, c, env: den(w, want, c, env), want.ufl_shape, want.ufl_free_indices, want.ufl_index_dimensions, timeout_ms=tmo,
+                              what=f"{t_.name}: _ufl_expr_reconstruct_ with new operands")
+        run.add(f"reconstruct/{t_.name}", recon, kind="values")
+
     # ---- canary: a wrong intended operation must be refuted
     def canary():
         a, b = Opq("a"), Opq("b")
